@@ -19,7 +19,8 @@ func fr(n, d int64) Frac { return Frac{n, d} }
 
 // configs: the configuration axis of C02/C03 (fee settings x decimal scales), cycled by run number.
 func configFor(k int, rng *sim.Rng) Config {
-	decs := [][4]int64{{1, 1, 1, 1}, {1, 1, 10, 1}, {10, 1, 1, 10}, {1, 10, 10, 100}, {10, 1, 100, 10}, {1, 1, 1, 10}}
+	// (collateral CMDX, collateral ATOM, debt, stable-in); both directions of differing scales for each collateral/debt pair
+	decs := [][4]int64{{1, 1, 1, 1}, {1, 1, 10, 1}, {10, 1, 1, 10}, {1, 10, 10, 100}, {10, 1, 100, 10}, {1, 1, 1, 10}, {1, 10, 1, 10}, {10, 100, 10, 1}}
 	draws := []Frac{fr(0, 1), fr(1, 10), fr(1, 100), fr(1, 4)}
 	closes := []Frac{fr(0, 1), fr(1, 20), fr(0, 1)}
 	stabs := []Frac{fr(0, 1), fr(0, 1), fr(1, 2), fr(9, 10)}
@@ -93,6 +94,24 @@ func (w *World) randomAct(rng *sim.Rng) Act {
 	}
 	names := []string{"Create", "Deposit", "Withdraw", "Draw", "Repay", "Close", "DepositDraw", "SCreate", "SDeposit", "SWithdraw", "InterestCalc", "Liquidate", "Bid", "Price", "Block", "Breaker", "Reserve", "LiqExt",
 		"V1Liquidate", "V1Bid", "V1Sweep", "V1Tick"}
+	if w.Esm { // emergency shutdown: rare in ordinary runs, headed for in EsmBias runs; once executed, blocks / V1 ticks / redemptions / cool-off withdrawals dominate
+		names = append(names, "EsmDeposit", "EsmExecute", "EsmRedeem")
+		es, found := w.App.EsmKeeper.GetESMStatus(w.Ctx, w.App1)
+		switch {
+		case found && es.Status:
+			for i := range weights {
+				if weights[i] > 2 {
+					weights[i] /= 2
+				}
+			}
+			weights[14], weights[21], weights[2] = 24, 10, 8 // Block, V1Tick, Withdraw
+			weights = append(weights, 1, 1, 14)
+		case w.EsmBias:
+			weights = append(weights, 6, 5, 1)
+		default:
+			weights = append(weights, 1, 1, 0)
+		}
+	}
 	a := Act{A: names[rng.Weighted(weights)], U: u}
 	pickVault := func(own bool) (vaultView, bool) {
 		var c []vaultView
@@ -266,6 +285,14 @@ func (w *World) randomAct(rng *sim.Rng) Act {
 		}
 	case "V1Sweep", "V1Tick":
 		a.U = ""
+	case "EsmDeposit":
+		a.X = []int64{10, 25, 50, 60, 1}[rng.Intn(5)]
+	case "EsmRedeem":
+		a.D = "ust"
+		a.X = []int64{1, 2, 5, 10, 23, 50, 1000}[rng.Intn(7)]
+		if rng.Intn(15) == 0 {
+			a.D = "ucm"
+		}
 	case "Price":
 		a.U = ""
 		a.D = []string{"ucm", "uat", "ust", "uus", "ucm", "uat"}[rng.Intn(6)]
@@ -313,8 +340,9 @@ func digestOf(st map[string]interface{}) string {
 
 func rootNode(lg *sim.Log, w *World, run string) int {
 	st := w.Project()
+	w.last = st
 	id := len(lg.Nodes) + 1
-	return lg.Add(0, run, "Init", Act{}.Args(), Res{OK: true}, map[string]interface{}{"s": st, "cfg": w.ConfigJSON(), "root": id})
+	return lg.Add(0, run, "Init", Act{}.Args(), Res{OK: true}, map[string]interface{}{"s": st, "cfg": w.ConfigJSON(), "root": id, "ev": w.labels(st, st, Act{A: "Init"})})
 }
 
 // Main: vh harbor --mode drive|explore --seed S --runs R --steps K --out log.ndjson
@@ -348,13 +376,15 @@ func Main(args []string) int {
 		cfg := configFor(r+int(*seed), rng)
 		w := Setup(cfg)
 		w.V1Bias = r%3 == 1
+		w.Esm = *esm
+		w.EsmBias = *esm && r%5 == 4
 		run := fmt.Sprintf("drive:%d:%d", *seed, r)
 		par := rootNode(lg, w, run)
 		root := par
 		for k := 0; k < *steps; k++ {
 			a := w.randomAct(rng)
 			rs := w.Do(a)
-			par = lg.Add(par, run, a.A, a.Args(), rs, map[string]interface{}{"s": w.Project(), "root": root})
+			par, _ = w.Record(lg, par, run, root, a, rs)
 			if rs.Panic && a.A == "Block" {
 				break // chain halted
 			}
@@ -369,7 +399,8 @@ func Main(args []string) int {
 	if *depth > 0 {
 		exploreV1(lg, *seed, *depth+1, *maxNodes/2)
 		if *esm {
-			exploreEsm(lg, *seed, *depth+3, *maxNodes/2)
+			exploreEsm(lg, *seed, *depth+3, *maxNodes/3, true)
+			exploreEsm(lg, *seed, *depth+3, *maxNodes/3, false)
 		}
 	}
 	if *sweepFile != "" {
@@ -487,8 +518,7 @@ func explore(lg *sim.Log, rng *sim.Rng, seed int64, depth, maxNodes int, actsFil
 			}
 			c := it.w.Fork()
 			rs := c.Do(a)
-			st := c.Project()
-			id := lg.Add(it.node, run, a.A, a.Args(), rs, map[string]interface{}{"s": st, "root": root})
+			id, st := c.Record(lg, it.node, run, root, a, rs)
 			dg := digestOf(st)
 			if !seen[dg] {
 				seen[dg] = true
@@ -511,7 +541,7 @@ func exploreV1(lg *sim.Log, seed int64, depth, maxNodes int) {
 	par := root
 	for _, a := range []Act{{A: "Create", U: "u1", P: p1, X: 30, Y: 40}, {A: "Create", U: "u2", P: p1, X: 15, Y: 20}, {A: "Price", D: "ucm", Y: 1, On: true}} {
 		rs := w0.Do(a)
-		par = lg.Add(par, run, a.A, a.Args(), rs, map[string]interface{}{"s": w0.Project(), "root": root})
+		par, _ = w0.Record(lg, par, run, root, a, rs)
 	}
 	acts := []Act{
 		{A: "V1Liquidate", U: "u2", V: 1}, {A: "V1Liquidate", U: "u1", V: 2}, {A: "V1Sweep"}, {A: "V1Tick"},
@@ -540,8 +570,7 @@ func exploreV1(lg *sim.Log, seed int64, depth, maxNodes int) {
 			}
 			c := it.w.Fork()
 			rs := c.Do(a)
-			st := c.Project()
-			id := lg.Add(it.node, run, a.A, a.Args(), rs, map[string]interface{}{"s": st, "root": root})
+			id, st := c.Record(lg, it.node, run, root, a, rs)
 			if dg := digestOf(st); !seen[dg] {
 				seen[dg] = true
 				queue = append(queue, item{c, id, it.d + 1})
@@ -573,8 +602,7 @@ func bfs(lg *sim.Log, run string, root, par int, w0 *World, acts []Act, depth, m
 			}
 			c := it.w.Fork()
 			rs := c.Do(a)
-			st := c.Project()
-			id := lg.Add(it.node, run, a.A, a.Args(), rs, map[string]interface{}{"s": st, "root": root})
+			id, st := c.Record(lg, it.node, run, root, a, rs)
 			if dg := digestOf(st); !seen[dg] {
 				seen[dg] = true
 				queue = append(queue, item{c, id, it.d + 1})
@@ -588,27 +616,35 @@ func bfs(lg *sim.Log, run string, root, par int, w0 *World, acts []Act, depth, m
 // partial bid), one healthy vault, one stable-mint vault, and the ESM deposit target reached. Then every sequence of the
 // action instances below (execute, blocks before / after the cool-off end, V1 price update, withdraw in the cool-off,
 // redemption, late bids) up to `depth`.
-func exploreEsm(lg *sim.Log, seed int64, depth, maxNodes int) {
+func exploreEsm(lg *sim.Log, seed int64, depth, maxNodes int, withStable bool) {
 	w0 := Setup(exploreConfig())
 	run := fmt.Sprintf("exploreesm:%d", seed)
+	if !withStable { // second variant: no stable-mint vault (the shutdown stages are then free of KF-C01-ESM-1)
+		run = fmt.Sprintf("exploreesmb:%d", seed)
+	}
 	root := rootNode(lg, w0, run)
 	p1, p2, p3 := w0.Prods[0].ID, w0.Prods[1].ID, w0.Prods[2].ID
 	par := root
 	for _, a := range []Act{
 		{A: "Create", U: "u1", P: p1, X: 30, Y: 40}, {A: "Create", U: "u2", P: p1, X: 15, Y: 20}, {A: "Create", U: "u1", P: p2, X: 20, Y: 30},
-		{A: "SCreate", U: "u2", P: p3, X: 20}, {A: "Price", D: "ucm", Y: 1, On: true},
-		{A: "V1Liquidate", U: "u2", V: 1}, {A: "Liquidate", U: "u1", V: 2},
-		{A: "V1Bid", U: "u2", V: 1, D: "ucm", X: 10}, {A: "Bid", U: "u1", V: 1, D: "ust", X: 5},
+		{A: "Create", U: "u2", P: p2, X: 40, Y: 30}, {A: "SCreate", U: "u2", P: p3, X: 20},
+		{A: "Price", D: "ucm", Y: 1, On: true}, {A: "Price", D: "uat", Y: 2, On: true},
+		{A: "V1Liquidate", U: "u2", V: 1}, {A: "Liquidate", U: "u1", V: 2}, {A: "V1Liquidate", U: "u2", V: 3},
+		// V1 auction 1 stays below the principal (close-out re-opens the vault), V1 auction 2 collects more than the principal but less than the target (close-out hands the rest to the esm account)
+		{A: "V1Bid", U: "u2", V: 1, D: "ucm", X: 10}, {A: "Bid", U: "u1", V: 1, D: "ust", X: 5}, {A: "V1Bid", U: "u2", V: 2, D: "uat", X: 13},
 		{A: "EsmDeposit", U: "u1", X: 50},
 	} {
+		if a.A == "SCreate" && !withStable {
+			continue
+		}
 		rs := w0.Do(a)
-		par = lg.Add(par, run, a.A, a.Args(), rs, map[string]interface{}{"s": w0.Project(), "root": root})
+		par, _ = w0.Record(lg, par, run, root, a, rs)
 	}
 	acts := []Act{
 		{A: "EsmExecute", U: "u1"}, {A: "Block", Y: 5}, {A: "Block", Y: 30}, {A: "V1Tick"},
-		{A: "Withdraw", U: "u1", P: p2, V: 3, X: 2}, {A: "EsmRedeem", U: "u2", X: 10}, {A: "EsmRedeem", U: "u1", X: 1000},
+		{A: "Withdraw", U: "u2", P: p2, V: 4, X: 2}, {A: "EsmRedeem", U: "u2", X: 10}, {A: "EsmRedeem", U: "u1", X: 1000},
 		{A: "V1Bid", U: "u2", V: 1, D: "ucm", X: 20}, {A: "Bid", U: "u2", V: 1, D: "ust", X: 100},
-		{A: "Deposit", U: "u1", P: p2, V: 3, X: 5}, {A: "V1Liquidate", U: "u2", V: 3}, {A: "Price", D: "uat", Y: 1, On: true},
+		{A: "Deposit", U: "u2", P: p2, V: 4, X: 5}, {A: "V1Liquidate", U: "u1", V: 4}, {A: "Price", D: "uat", Y: 1, On: true},
 	}
 	bfs(lg, run, root, par, w0, acts, depth, maxNodes)
 }
